@@ -27,6 +27,9 @@ from . import c13, common
 PROP = "C15"
 # Props/C15S.lean: generated control skeleton of the interrupt paths vs the model's
 LEAN_MODULES = ["MiciVerif.Props.C15", "MiciVerif.Props.C15S"]
+# --- B13: interrupt path through the worker / queue / parent loop of the parallel mode, read on the model's state
+LEAN_MODULES += ["MiciVerif.Props.C15P"]
+# --- end B13
 GENERATED = ["sampler_skeleton"]
 LEAN_EXTRA = c13.LEAN_EXTRA
 
@@ -587,6 +590,19 @@ def all_workers_interrupted(ctx):
         base = c13.real_run({**cfg, "n_process": 1})
         if res.get("lengths") != base.get("lengths"):
             ctx.violation("interrupted run array lengths", f"lengths {res.get('lengths')} vs {base.get('lengths')}: {case}", replay)
+        # --- B13: a worker that has reported an interrupt takes no further chain (model: `workerRun` stops after an
+        # interrupted chain; Props/C15P `pool_interrupted_worker_takes_no_more`): every invocation of the worker
+        # function takes exactly one chain here, the queue is FIFO, so exactly the first n_process chains are started
+        # and the others keep their fill values ("rows not reached keep their fill values").
+        n_started = min(n_process, n_chain)
+        touched = [c for c, arrs in enumerate(res["arrays"]) if any(row is not None for a in arrs for row in a)]
+        if len(res["finals"]) != n_started or any(c >= n_started for c in touched):
+            ctx.violation("all workers interrupted: chains were started after the interrupt",
+                          f"{n_chain} chains on {n_process} processes, every running chain interrupted in {op} at x={x}: "
+                          f"{len(res['finals'])} final states returned and chains {touched} have written rows, although every "
+                          f"worker had reported an interrupt after its first chain (expected chains 0..{n_started - 1} only): {case}",
+                          replay)
+        # --- end B13
 
 
 def replay(ctx, obj):
